@@ -1,7 +1,8 @@
 #!/bin/sh
 # tools/benignmatrix.sh : every behaviour-preserving edit under benign/ against the checks of its properties; all must stay quiet (exit 0)
 cd /verif; out=/root/scratch/benignmatrix.txt; : > $out; n=0
-for b in $(ls benign); do
+sel="$@"; [ -z "$sel" ] && sel=$(ls benign)
+for b in $sel; do
   ps=$(python3 -c "import json;print(' '.join(json.load(open('benign/$b/meta.json'))['props_to_run']))")
   ( tools/benignrun.sh $b /verif/benign/$b/patch.diff $ps >> $out 2>&1 ) &
   n=$((n+1)); [ $((n % 4)) -eq 0 ] && wait
